@@ -37,6 +37,7 @@ SPECS = {
     "gen_nested": '<start> ::= <outer>\n<outer> ::= <inner> "!" := str(<inner>) + "!"\n<inner> ::= r"[ab]" := "a"\n',
     "empty_regex_next_to_literal": '<start> ::= <a> <b>\n<a> ::= r"x*"\n<b> ::= "y"\n',
     "nonascii_next_to_bits": '<start> ::= "é" <bit>{8} "z"\n<bit> ::= 0 | 1\n',
+    "nonascii_in_bytes": '<start> ::= b"\\x01" "é" b"\\x00"\n',
     "constrained": '<start> ::= <d> "," <d>\n<d> ::= "1" | "2" | "x"\nwhere int(<d>) >= 1\n',
     "constrained_len": '<start> ::= <a>{1,4}\n<a> ::= "x" | "y"\nwhere len(str(<start>)) % 2 == 0\n',
 }
@@ -45,6 +46,9 @@ SPECS = {
 # between neighbouring symbols) -- none so far; kept for documentation
 OUTSIDE_ROUNDTRIP_CLASS: set = set()
 
+# specs that exist for the C04 harness only (Latin-1 encoded byte inputs); for C05/C13 they would only repeat the
+# recorded finding about non-ASCII text literals next to binary data (spec nonascii_next_to_bits)
+C04_ONLY = {"nonascii_in_bytes"}
 GENERATOR_SPECS = {"gen_const", "gen_dependent", "gen_nested"}
 CONSTRAINED_SPECS = {"constrained", "constrained_len"}
 
